@@ -106,7 +106,8 @@ class Observer:
                                         "after": str(p2)[:400]})
 
     MODELLED = {"insert_pass", "reorder_stmts", "cut_loop", "join_loops", "specialize",
-                "eliminate_dead_code", "remove_loop", "add_loop", "fission", "fuse"}
+                "eliminate_dead_code", "remove_loop", "add_loop", "fission", "fuse",
+                "shift_loop", "unroll_loop", "divide_loop"}
 
     def rwcheck(self, p, att, pj, pj2, hist):
         """correspondence A: the real output is the model rewrite (lean/ExoModel/Rewrite.lean)"""
@@ -123,8 +124,12 @@ class Observer:
                 return
             k = path[-1][1] + (1 if a["where"] == "after" else 0)
             path = path[:-1]
+        name = op
+        if op == "divide_loop":
+            name = "divide_loop_perfect" if a["perfect"] else "divide_loop_" + a["tail"]
+            k = a["q"]
         c = self.rec["counts"]
-        req = {"op": "rwcheck", "name": op, "path": path, "k": k, "flag": flag, "before": pj, "after": pj2}
+        req = {"op": "rwcheck", "name": name, "path": path, "k": k, "flag": flag, "before": pj, "after": pj2}
         out = json.loads(self.I.drv.ask(json.dumps(req, separators=(",", ":"))))
         c["rwcheck"] = c.get("rwcheck", 0) + 1
         c["rwcheck:" + op] = c.get("rwcheck:" + op, 0) + 1
